@@ -16,6 +16,8 @@ Harness (real code, bitwise): each script is run once in a fresh process (refere
 * after a persistence round trip of the script (rdscript_to_dict/from_dict, save/load, from the caller's script or from
   trajectory.script) with parameters of 15-17 significant digits (1/300, '12.3456789 ms', t_max = n*dt + 1.234e-8),
 * scripts built WITHOUT a seed whose seed nobody reads before setup (the harness does not either),
+* after the caller modified the returned trajectory's .system in place (then trajectory.script is re-run),
+* one iterate_n(k) with k > 10^6 against the same iterations in two calls,
 * in fresh interpreters with PYTHONHASHSEED 0..5 (Euler scripts whose rate constants carry all three unit components and
   whose units system differs from the default in space, time and quantity),
 * while a set-up on ANOTHER engine object is refused mid-run (misspelt option, script without times and t_max),
@@ -62,13 +64,13 @@ def rand_schedule(rng):
     return steps
 
 
-KINDS = ["schedule", "twice", "after_others", "simulate", "resim", "reused", "noseed", "poll_reused", "edit_resim", "refused_other"]
+KINDS = ["schedule", "twice", "after_others", "simulate", "resim", "reused", "noseed", "poll_reused", "edit_resim", "refused_other", "outsys_resim"]
 
 
 def run(ctx):
     rng = ctx.rng
     n = ctx.n(25, 300)
-    nsched = ctx.n(10, 30)
+    nsched = ctx.n(11, 30)
     entries = []
     for i in range(n):
         option = lc.OPTIONS[i % 3]
@@ -243,6 +245,11 @@ def run(ctx):
                           {"obj": 0, "call": "setup", "script": 0, "peek": True},
                           {"obj": 0, "call": "poll", "how": how, "step": step, "max": 100000},
                           {"obj": 0, "call": "get_output", "full": True}, {"obj": 0, "call": "finalize"}]
+            elif kind == "outsys_resim":
+                # the caller modifies the trajectory object it was given (its .system, in place), then re-runs its .script
+                calls += [{"obj": 0, "call": "simulate", "script": 0},
+                          {"obj": 0, "call": "mutate_out", "what": "system_state"},
+                          {"obj": 0, "call": "new"}, {"obj": 0, "call": "resim"}]
             elif kind == "refused_other":
                 # mid-run, a set-up that must be REFUSED is attempted on another engine object of the same library (misspelt
                 # option, or a script without requested times and without t_max); the caller catches it and goes on
@@ -296,6 +303,38 @@ def run(ctx):
         S3["kw"]["rng_seed"] = (e["S"]["kw"]["rng_seed"] + 12345) % (2 ** 31)
         jobs.append({"id": "v%d_seed" % e["idx"], "engines": [e["eng"]], "scripts": [S3], "timeout": 30, "kind": "otherseed", "entry": e["idx"],
                      "sched": [], "calls": [{"obj": 0, "call": "simulate", "script": 0}]})
+    # one iterate_n(k) with k > 10^6 against the same number of iterations in two calls (tiny system, fine time step)
+    big_jobs = []
+    for b in range(ctx.n(1, 3)):
+        k = rng.choice([1200000, 1000001, 1500000])
+        opt = ["euler", "tauleap"][b % 2]
+        sysd = {"network": {"species": [{"label": "A", "density": 0, "D": 0}, {"label": "B", "density": 0, "D": 0}],
+                            "reactions": [{"eq": "A -> B", "k+": 0.7, "k-": 0.2}], "environments": ["a"]},
+                "space": {"type": "grid", "w": 1, "h": 1, "d": 1, "cell_volume": 1.0, "cell_env": [0], "boundary_conditions": {}},
+                "state": [1000.0 if opt != "euler" else 7.25, 3.0]}
+        Sb = {"system": sysd, "kw": {"t_sample": [0.0, 0.5, 0.9, 1.1, 1.4], "time_step": 1e-6, "t_max": 5.0, "sampling_policy": "on_t_sample",
+                                     "rng_seed": rng.randint(0, 2 ** 31 - 1), "init_state_processing": "none"}}
+        big_jobs.append({"id": "bigN%d" % b, "engines": [opt], "scripts": [Sb], "timeout": 60, "kind": "bigN", "k": k,
+                         "calls": [{"obj": 0, "call": "setup", "script": 0}, {"obj": 0, "call": "iterate_n", "n": k, "peek": True},
+                                   {"obj": 0, "call": "get_output", "full": True}, {"obj": 0, "call": "finalize"},
+                                   {"obj": 0, "call": "setup", "script": 0}, {"obj": 0, "call": "iterate_n", "n": 600000, "peek": True},
+                                   {"obj": 0, "call": "iterate_n", "n": k - 600000, "peek": True},
+                                   {"obj": 0, "call": "get_output", "full": True}, {"obj": 0, "call": "finalize"}]})
+    bres = lc.run_jobs(big_jobs, kind="plain", chunk=1, parallel=3, stall=60)
+    for bj in big_jobs:
+        r = bres[bj["id"]]
+        case = {"job": {k2: bj[k2] for k2 in ("id", "engines", "scripts", "calls", "kind")}}
+        ctx.case(("bigN", bj["id"], bj["k"]), nontrivial=True, sample={"op": "iterate_n", "k": bj["k"], "engine": bj["engines"][0]})
+        ctx.count("iterate_n_beyond_1e6")
+        if r["status"] != "ok" or any("raised" in x for x in r["results"]):
+            ctx.violation("variant-run:bigN", "iterate_n(%d) did not go through: %s" % (bj["k"], r["status"]), case, impl=r["status"])
+            continue
+        Ts = [x.get("T") for c, x in zip(bj["calls"], r["results"]) if c["call"] == "iterate_n"]
+        outs = [x["ret"] for c, x in zip(bj["calls"], r["results"]) if c["call"] == "get_output"]
+        if Ts[0] != Ts[2] or outs[0]["hash"] != outs[1]["hash"]:
+            ctx.violation("bitwise:iterate_n>1e6", "iterate_n(%d) in one call leaves the clock at %r with %d samples; iterate_n(600000) + iterate_n(%d) leaves it at %r with %d samples"
+                          % (bj["k"], Ts[0], outs[0]["nsamples"], bj["k"] - 600000, Ts[2], outs[1]["nsamples"]), case,
+                          impl={"clock": Ts[0], "t": outs[0]["t"]}, expected={"clock": Ts[2], "t": outs[1]["t"]})
     res = lc.run_jobs(jobs, kind="plain", chunk=ctx.n(6, 20), parallel=ctx.n(8, 8), stall=ctx.n(10, 30))
     # the same script and seed in fresh interpreters with different string-hash seeds (set / dict iteration orders differ)
     for hs in range(6):
@@ -362,6 +401,11 @@ def run(ctx):
                     (" (%s: %s became %s)" % (lost[0], rt["src_" + lost[0]], rt[lost[0]])) if lost else ""), case, impl=outs[-1]["hash"], expected=outs[0]["hash"])
             if outs[0]["hash"] != e["ref"]["hash"]:
                 ctx.violation("bitwise:simulate", "trajectory of simulate_script differs bitwise from the reference", case, impl=outs[0]["hash"], expected=e["ref"]["hash"])
+            continue
+        if kind == "outsys_resim":
+            if outs[-1]["hash"] != outs[0]["hash"]:
+                ctx.violation("stored-script:shares-system", "after the caller modified trajectory.system in place, re-running trajectory.script does not reproduce the trajectory "
+                              "(the stored script runs from the modified system)", case, impl=outs[-1]["hash"], expected=outs[0]["hash"])
             continue
         if kind == "edit_resim":
             ed = [x["ret"] for c, x in zip(j["calls"], r["results"]) if c["call"] == "edit_script"][0]
@@ -464,6 +508,13 @@ def replay(ctx, rec):
         return False, detail
     if str(job.get("kind", "")).startswith("persist:"):
         return (len(outs) >= 2 and outs[-1]["hash"] == outs[0]["hash"]), detail
+    if job.get("kind") == "outsys_resim":
+        return (len(outs) >= 2 and outs[-1]["hash"] == outs[0]["hash"]), detail
+    if job.get("kind") == "bigN":
+        outs2 = [x["ret"] for c, x in zip(job["calls"], r["results"]) if c["call"] == "get_output"]
+        Ts = [x.get("T") for c, x in zip(job["calls"], r["results"]) if c["call"] == "iterate_n"]
+        detail.update(clock=Ts, hashes=[o["hash"] for o in outs2])
+        return (len(outs2) == 2 and outs2[0]["hash"] == outs2[1]["hash"]), detail
     if job.get("kind") == "edit_resim":
         ed = [x["ret"] for c, x in zip(job["calls"], r["results"]) if c["call"] == "edit_script" and "ret" in x]
         detail["edit"] = ed
